@@ -74,3 +74,28 @@ package headers
 //@   pure
 //@   allocs <= 0
 //@   trusted TEMPORARY until the C14 proof is complete
+
+//@ func IsValid
+//@   props C04 C05 C15 C17
+//@   pure
+//@   allocs <= 0
+//@ func IsForbiddenRequestHeaderName
+//@   props C04 C05 C15 C17
+//@   pure
+//@   allocs <= 0
+//@ func IsProhibitedRequestHeaderName
+//@   props C04 C05 C15 C17
+//@   pure
+//@   allocs <= 0
+//@ func IsForbiddenResponseHeaderName
+//@   props C04 C05 C15 C17
+//@   pure
+//@   allocs <= 0
+//@ func IsProhibitedResponseHeaderName
+//@   props C04 C05 C15 C17
+//@   pure
+//@   allocs <= 0
+//@ func IsSafelistedResponseHeaderName
+//@   props C04 C05 C15 C17
+//@   pure
+//@   allocs <= 0
